@@ -62,6 +62,90 @@ WProofs == <<"Withdraw", "Withdraw", "WithdrawNF", "WithdrawNF", "TakeFromWorkto
              "DropNamedProofs", "DropAuthZoneRegularProofs", "Recall", "RecallNF", "BurnInAccount", "BurnNFInAccount", "Burn">>
 WNF == <<"MintNF", "MintNF", "MintNF", "MintRuid", "MintRuid", "TakeAll", "TakeAll", "Burn", "Burn", "BurnNFInAccount", "BurnNFInAccount", "DepositBatch", "DepositBatch",
          "DepositBatch", "UpdateNFData", "UpdateNFData", "WithdrawNF", "Deposit">>
+\* ---- boundary scripts (GenLedger BSpec)
+ResFNU == [F |-> DefF, N |-> DefN, U |-> DefU]
+LedFNU == [vault |-> [a1 |-> [F |-> FC(4), N |-> NC({1, 2}), U |-> NC({1})], a2 |-> [F |-> FC(2), N |-> C0, U |-> C0]],
+           supply |-> [F |-> 6, N |-> 4, U |-> 2], data |-> [N |-> Dt({1, 2}), U |-> Dt({1})],
+           ever |-> [N |-> {1, 2}, U |-> {1}], ctr |-> [N |-> 0, U |-> 1]]
+InitFNU == {LedFNU}
+E_ == EndIns
+W_(a, n) == I("Withdraw", a, "F", n, {}, 0, "", 0)
+WN_(a, r, s) == I("WithdrawNF", a, r, 0, s, 0, "", 0)
+T_(n) == I("TakeFromWorktop", "", "F", n, {}, 0, "", 0)
+TN_(s) == I("TakeNF", "", "N", 0, s, 0, "", 0)
+TA_(r) == I("TakeAll", "", r, 0, {}, 0, "", 0)
+Rt_(k) == I("ReturnToWorktop", "", "", 0, {}, k, "", 0)
+DB_(a) == I("DepositBatch", a, "", 0, {}, 0, "", 0)
+Mi_(n) == I("Mint", "", "F", n, {}, 0, "", 0)
+MN_(s) == I("MintNF", "", "N", 0, s, 0, "", 0)
+MR_(n) == I("MintRuid", "", "U", n, {}, 0, "", 0)
+Bu_(k) == I("Burn", "", "", 0, {}, k, "", 0)
+BA_(a, n) == I("BurnInAccount", a, "F", n, {}, 0, "", 0)
+BN_(a, s) == I("BurnNFInAccount", a, "N", 0, s, 0, "", 0)
+Rc_(a, n) == I("Recall", a, "F", n, {}, 0, "", 0)
+PA_(a, n) == I("ProofOfAmount", a, "F", n, {}, 0, "", 0)
+PN_(a, s) == I("ProofOfNF", a, "N", 0, s, 0, "", 0)
+BP_(k, n) == I("BucketProofOfAmount", "", "", n, {}, k, "", 0)
+BPN_(k, s) == I("BucketProofOfNF", "", "", 0, s, k, "", 0)
+Pop_ == I("PopFromAuthZone", "", "", 0, {}, 0, "", 0)
+Cl_(k) == I("CloneProof", "", "", 0, {}, k, "", 0)
+Dr_(k) == I("DropProof", "", "", 0, {}, k, "", 0)
+Up_(x) == I("UpdateNFData", "", "N", 0, {}, x, "m", 1)
+Sc(n, items, ops, res) == [name |-> n, items |-> items, ops |-> ops, res |-> res]
+LeaveF == {"Withdraw", "Recall", "BurnInAccount", "ProofOfAmount"}
+BucketUse == {"Deposit", "Burn", "ReturnToWorktop"}
+NFHist == {"MintNF", "MintNFWrongType", "MintRuid", "UpdateNFData", "WithdrawNF", "BurnNFInAccount", "RecallNF", "ProofOfNF"}
+\* worktop / buckets (C09)
+ScW == {Sc("w0", <<>>, {"Withdraw", "WithdrawNF", "TakeFromWorktop", "TakeNF", "TakeAll", "DepositBatch", "Mint", "MintNF", "AssertContains", "AssertAny", "AssertNF", "PopFromAuthZone"}, {"F", "N"}),
+        Sc("w1", <<W_("a1", 4)>>, {"TakeFromWorktop", "TakeAll", "AssertContains", "AssertAny", "DepositBatch", "Withdraw", "Mint"}, {"F"}),
+        Sc("w2", <<W_("a1", 4), T_(2)>>, BucketUse \cup {"TakeFromWorktop", "TakeAll", "AssertContains", "BucketProofOfAmount", "BucketProofOfAll"}, {"F"}),
+        Sc("w3", <<W_("a1", 4), T_(2), Rt_(1)>>, BucketUse \cup {"TakeFromWorktop", "BucketProofOfAmount", "BucketProofOfAll"}, {"F"}),
+        Sc("w4", <<WN_("a1", "N", {1, 2})>>, {"TakeNF", "TakeAll", "AssertNF", "AssertContains", "AssertAny", "DepositBatch", "MintNF"}, {"N"}),
+        Sc("w5", <<WN_("a1", "N", {1, 2}), TN_({1})>>, BucketUse \cup {"TakeNF", "AssertNF", "BucketProofOfNF", "BucketProofOfAll"}, {"N"}),
+        Sc("w6", <<W_("a1", 4), T_(0)>>, BucketUse \cup {"BucketProofOfAll", "BucketProofOfAmount"}, {"F"})}
+\* proofs and locks (C10)
+ScL == {Sc("l0", <<>>, LeaveF \cup {"ProofOfNF", "WithdrawNF", "RecallNF", "BurnNFInAccount"}, {"F", "N"}),
+        Sc("l1", <<PA_("a1", 2)>>, LeaveF \cup {"PopFromAuthZone", "DropAllProofs", "DropAuthZoneRegularProofs", "DropAuthZoneProofs", "DropNamedProofs"}, {"F"}),
+        Sc("l2", <<PA_("a1", 2), PA_("a1", 4)>>, LeaveF \cup {"PopFromAuthZone", "DropAuthZoneRegularProofs"}, {"F"}),
+        Sc("l3", <<PA_("a1", 4), Pop_>>, LeaveF \cup {"CloneProof", "DropProof", "PushToAuthZone", "DropNamedProofs", "DropAllProofs"}, {"F"}),
+        Sc("l4", <<PA_("a1", 4), Pop_, Cl_(1), Dr_(1)>>, LeaveF \cup {"DropProof", "CloneProof", "PushToAuthZone"}, {"F"}),
+        Sc("l5", <<PA_("a1", 4), Pop_, Dr_(1)>>, LeaveF \cup {"DropProof", "CloneProof", "PushToAuthZone"}, {"F"}),
+        Sc("l6", <<PA_("a1", 2), PA_("a1", 4), Pop_, Dr_(1)>>, LeaveF, {"F"}),
+        Sc("l7", <<W_("a1", 4), TA_("F"), BP_(1, 2)>>, BucketUse \cup {"BucketProofOfAmount", "BucketProofOfAll", "CloneProof", "DropProof"}, {"F"}),
+        Sc("l8", <<W_("a1", 4), TA_("F"), BP_(1, 2), Rt_(1)>>, {"TakeFromWorktop", "TakeAll", "DepositBatch", "AssertContains", "Withdraw", "DropProof"}, {"F"}),
+        Sc("l9", <<PN_("a1", {1})>>, {"WithdrawNF", "RecallNF", "BurnNFInAccount", "ProofOfNF", "PopFromAuthZone"}, {"N"}),
+        Sc("l10", <<WN_("a1", "N", {1, 2}), TA_("N"), BPN_(1, {1})>>, BucketUse \cup {"BucketProofOfNF", "BucketProofOfAll", "DropProof", "CloneProof"}, {"N"}),
+        Sc("l11", <<WN_("a1", "N", {1, 2}), TA_("N"), BPN_(1, {1}), Rt_(1)>>, {"TakeNF", "TakeAll", "DepositBatch", "AssertNF", "DropProof"}, {"N"})}
+\* histories: burnt ids, failed mints, failed transactions in between (C43, C04, C03)
+ScH == {Sc("h1", <<MN_({3}), DB_("a1"), E_, BN_("a1", {3}), E_>>, NFHist, {"N"}),
+        Sc("h2", <<MN_({3}), E_>>, NFHist, {"N"}),
+        Sc("h3", <<BN_("a1", {1}), MN_({1})>>, NFHist, {"N"}),
+        Sc("h4", <<BN_("a1", {1}), E_, MN_({3}), W_("a1", 6)>>, NFHist, {"N"}),
+        Sc("h5", <<Up_(1), E_>>, {"UpdateNFData", "BurnNFInAccount", "MintNF"}, {"N"}),
+        Sc("h6", <<MN_({3}), TA_("N"), Bu_(1), E_>>, NFHist, {"N"}),
+        Sc("u1", <<MR_(1), DB_("a1"), E_>>, NFHist, {"U"}),
+        Sc("u2", <<MR_(1), E_>>, {"MintRuid", "WithdrawNF", "MintNF"}, {"U"}),
+        Sc("u3", <<MR_(2), DB_("a2"), E_, I("BurnNFInAccount", "a2", "U", 0, {2}, 0, "", 0), E_>>, NFHist, {"U"})}
+ScF == {Sc("f1", <<Mi_(2), DB_("a2"), E_>>, LeaveF \cup {"Mint"}, {"F"}),
+        Sc("f2", <<BA_("a1", 4), E_>>, LeaveF \cup {"Mint"}, {"F"}),
+        Sc("f3", <<Rc_("a1", 4), DB_("a2"), E_, W_("a2", 6), T_(6), Bu_(1), E_>>, LeaveF \cup {"Mint"}, {"F"}),
+        Sc("f4", <<Mi_(2), E_>>, LeaveF \cup {"Mint"}, {"F"}),
+        Sc("f5", <<Mi_(4), TA_("F")>>, BucketUse \cup {"TakeFromWorktop"}, {"F"}),
+        Sc("f6", <<Rc_("a1", 4)>>, {"TakeFromWorktop", "TakeAll", "DepositBatch", "Recall", "Withdraw"}, {"F"})}
+DAP_ == I("DropAllProofs", "", "", 0, {}, 0, "", 0)
+\* ends of transactions that must fail (bucket left in the name table / locked bucket left), lost signature proofs
+ScX == {Sc("x1", <<DAP_>>, LeaveF \cup {"WithdrawNF", "ProofOfNF", "DepositBatch", "Mint", "BurnNFInAccount"}, {"F", "N"}),
+        Sc("x2", <<W_("a1", 4), T_(2), DB_("a1"), E_>>, {"Withdraw"}, {"F"}),
+        Sc("x3", <<W_("a1", 4), TA_("F"), BP_(1, 2), E_>>, {"Withdraw"}, {"F"}),
+        Sc("x4", <<W_("a1", 4), TA_("F"), BP_(1, 2), Rt_(1), E_>>, {"Withdraw"}, {"F"}),
+        Sc("x5", <<W_("a1", 4), T_(0), E_>>, {"Withdraw"}, {"F"}),
+        Sc("x6", <<W_("a1", 4), TA_("F"), DAP_>>, {"Deposit", "DepositBatch", "ReturnToWorktop", "Burn"}, {"F"})}
+ScC03 == ScF \cup {x \in ScW : x.name \in {"w0", "w1"}} \cup {x \in ScH : x.name \in {"h1", "h6"}}
+ScC04 == ScF \cup {x \in ScH : x.name \in {"h1", "h4", "u1", "u3"}}
+ScWX == ScW \cup ScX
+ScLX == ScL \cup ScX
+ScAll == ScW \cup ScL \cup ScH \cup ScF \cup ScX
+NoScripts == {}
 IdsNone == {}
 Ids1 == {{}, {1}, {2}, {3}, {1, 2}}
 Ids2 == {{1}, {3}, {1, 2}, {2, 3}}
